@@ -38,6 +38,8 @@ type Solver struct {
 	Restarts    int
 	Rlimit      int
 	oneShotMode bool
+	noRetry     bool // this instance is itself the retry of an unknown answer
+	Retries     int
 	Errors      int
 	SolveTime   time.Duration
 	log         io.Writer
@@ -452,7 +454,32 @@ func (s *Solver) CheckWithModel(extra *Term, names []string, sorts []Sort) (Resu
 // OneShot decides the conjunction of the given terms in a fresh context
 // ((reset) first), so that z3 uses its full preprocessing/bit-blasting pipeline
 // rather than the incremental core. Returns values of names on Sat.
+// OneShot decides one self-contained query. The limit of the one-shot solver is a wall-clock timer, so
+// on a loaded machine a query that normally takes a second can run into it: an unknown answer is
+// therefore asked once more with four times the limit (fresh process) before it is reported.
 func (s *Solver) OneShot(terms []*Term, names []string, sorts []Sort) (Result, map[string]uint64) {
+	r, model := s.oneShotOnce(terms, names, sorts)
+	if r != Unknown || s.noRetry || os.Getenv("GOSYM_NO_RETRY") == "1" {
+		return r, model
+	}
+	s2, err := NewSolverOpts(s.backend, s.timeoutMs*4, 0, true)
+	if err != nil {
+		return r, model
+	}
+	s2.noRetry = true
+	defer s2.Close()
+	r2, model2 := s2.oneShotOnce(terms, names, sorts)
+	s.SolveTime += s2.SolveTime
+	s.Retries++
+	if r2 != Unknown {
+		// the first attempt was counted as unknown: it is answered now
+		s.Unknowns--
+		s.Definite++
+	}
+	return r2, model2
+}
+
+func (s *Solver) oneShotOnce(terms []*Term, names []string, sorts []Sort) (Result, map[string]uint64) {
 	ds := newDeclSet()
 	var asserts []string
 	for _, t := range terms {
